@@ -2,6 +2,7 @@ package vh
 
 import (
 	"encoding/json"
+	"errors"
 	"fmt"
 	"reflect"
 	"sync/atomic"
@@ -9,6 +10,7 @@ import (
 	"testing/synctest"
 	"time"
 
+	"github.com/failsafe-go/failsafe-go"
 	"github.com/failsafe-go/failsafe-go/circuitbreaker"
 )
 
@@ -65,6 +67,8 @@ func metricsOf(m circuitbreaker.Metrics) []uint {
 type brRec struct {
 	specific []brEvent
 	generic  []brEvent
+	delayVal time.Duration // value the delay function returns for the execution in progress (-1: no computed delay)
+	dfCalls  int
 }
 
 func buildBreaker(c brCfg, rec *brRec) circuitbreaker.CircuitBreaker[string] {
@@ -89,6 +93,10 @@ func buildBreaker(c brCfg, rec *brRec) circuitbreaker.CircuitBreaker[string] {
 	}
 	b = b.WithDelay(time.Duration(c.Delay) * u)
 	if rec != nil {
+		b = b.WithDelayFunc(func(exec failsafe.ExecutionAttempt[string]) time.Duration {
+			rec.dfCalls++
+			return rec.delayVal
+		})
 		sp := func(e circuitbreaker.StateChangedEvent) {
 			rec.specific = append(rec.specific, brEvent{stateName(e.OldState), stateName(e.NewState), metricsOf(e.Metrics())})
 		}
@@ -125,6 +133,34 @@ func replayBreaker(c brCfg, steps []brStep) (mis string, step int, nontrivial bo
 			cb.HalfOpen()
 		case "Close":
 			cb.Close()
+		case "Exec":
+			rec.delayVal = -1
+			if s.D != -1 {
+				rec.delayVal = time.Duration(s.D) * u
+			}
+			wantFail := s.Obs.Ret == "fail"
+			ran := false
+			_, err := failsafe.NewExecutor[string](cb).Get(func() (string, error) {
+				ran = true
+				if wantFail {
+					return "", errBoom
+				}
+				return "r", nil
+			})
+			switch {
+			case errors.Is(err, circuitbreaker.ErrOpen) && !ran:
+				ret = "rejected"
+			case ran && err == nil:
+				ret = "ok"
+			case ran && errors.Is(err, errBoom):
+				ret = "fail"
+			default:
+				ret = fmt.Sprintf("ran=%v err=%v", ran, err)
+			}
+			if s.Obs.Ret == "rejected" && ret == "ok" {
+				// the script's outcome for an admitted execution is unknown when the spec says "rejected"
+				ret = "admitted"
+			}
 		case "Tick":
 			time.Sleep(time.Duration(s.D) * u)
 		default:
@@ -159,6 +195,8 @@ func replayBreaker(c brCfg, steps []brStep) (mis string, step int, nontrivial bo
 	}
 	return "", -1, nontrivial
 }
+
+var errBoom = errors.New("boom")
 
 func eventsEqual(a, b []brEvent) bool {
 	if len(a) != len(b) {
